@@ -4,6 +4,7 @@ import PV.C05.Global
 import PV.C05.PlainGaps
 import PV.C05.LineStart
 import PV.C05.NlnPlace
+import PV.C05.GapBreaks   -- predicate `DefaultGapsLineBreaks` + lemmas (imports PV.C10.LexFilter)
 /-
   C05 — the token stream tiles the source: property theorems.
 
@@ -238,5 +239,68 @@ example : NlnPlacement 0 true [.comment [35], .nonLogicalNewline, .name [120], .
   simp [NlnPlacement, lineStartStep, depthStep]
 example : ¬ NlnPlacement 0 true [.name [120], .nonLogicalNewline] := by
   simp [NlnPlacement, lineStartStep, depthStep]
+
+/-! ### the default lexer: which line breaks may lie in gaps -/
+
+/-- **In the default configuration a line break that no token covers is a backslash join, stands inside brackets, or
+    ends a line that holds nothing but blanks and comments.**  `DefaultGapsLineBreaks src toks` (PV/C05/GapBreaks.lean):
+    walking along the token stream with the bracket depth `d` and the flag `ls` ("no token since the last
+    NEWLINE / INDENT / DEDENT") counted from the tokens, every position `i` in front of the first token (behind a
+    byte-order mark), between two consecutive tokens, or behind the last token that holds a line-break character `⏎` / `␍`
+    not directly preceded by a backslash (`FreeBreakAt`) has `0 < d` or `ls = true`.
+
+    This is the statement that `gaps_are_trivia` leaves open ("which line breaks may be gaps"), packaged: it combines
+    `full_lexer_tiles` (gaps of the full lexer hold only blanks and joins), `nonlogical_newline_placement` (its
+    `NonLogicalNewline` tokens stand inside brackets or on blank lines), `token_text_spells` (its `Comment` tokens hold no
+    line break) and `PV.C10.full_lexer_filter` (the default stream is the full stream without those tokens). -/
+theorem default_gaps_line_breaks {cfg : Cfg} (hs : cfg.up.Sane) (hf : cfg.fullLexer = false) {mode : Mode} {k : Nat}
+    {src : List Nat} {out : LexOut} (h : lex cfg mode k src = some out) (hok : out.fin = .eof) :
+    DefaultGapsLineBreaks src out.toks := by
+  obtain ⟨fl, up⟩ := cfg
+  simp only at hf hs
+  subst hf
+  unfold lex at h
+  cases hr : lexRaw ⟨false, up⟩ k src with
+  | none => simp [hr] at h
+  | some o =>
+    simp [hr] at h; subst h
+    simp only at hok
+    rw [PV.C10.lexRaw_filter] at hr
+    cases hF : lexRaw ⟨true, up⟩ k src with
+    | none => simp [hF] at hr
+    | some oF =>
+      simp only [hF, Option.map_some, Option.some.injEq] at hr
+      subst hr
+      have hokF : oF.fin = .eof := by simpa [PV.C10.dropOut] using hok
+      have P := lexRaw_props (cfg := ⟨true, up⟩) hs hF
+      have T := P.2.2.2 rfl hokF
+      have N := lexRaw_nln (cfg := ⟨true, up⟩) hs hF
+      unfold DefaultGapsLineBreaks
+      simp only [softKw, softKwGo_gapBreaks, PV.C10.dropOut]
+      unfold Tiles at T
+      rw [srcBody_eq_drop] at T
+      exact gapBreaksOk_of_full src oF.toks 0 true (bomLen src) (bomLen src) (Nat.le_refl _) (fun i a b => by omega) T N
+        (fun t ht c hc => comment_no_break hc (P.1 t ht)) (fun t _ htr => trivia_kind htr)
+
+
+/-- `f(⏎1) # c⏎⏎x \⏎= 2⏎`: a line break inside brackets, a comment, a blank line, a backslash join — the hypotheses
+    of the theorem hold … -/
+def gapSrc : List Nat := [102, 40, 10, 49, 41, 32, 35, 32, 99, 10, 10, 120, 32, 92, 10, 61, 32, 50, 10]
+
+example : ∃ out, lex ⟨false, asciiParams⟩ .module 0 gapSrc = some out ∧ out.fin = .eof ∧
+    out.toks.map (·.tok) = [.name [102], .op .Lpar, .int 1, .op .Rpar, .newline, .name [120], .op .Equal, .int 2, .newline] ∧
+    DefaultGapsLineBreaks gapSrc out.toks := by
+  have h : lex ⟨false, asciiParams⟩ .module 0 gapSrc = some
+      ⟨[⟨.name [102], 0, 1, 0, 1⟩, ⟨.op .Lpar, 1, 2, 1, 2⟩, ⟨.int 1, 3, 4, 3, 4⟩, ⟨.op .Rpar, 4, 5, 4, 5⟩,
+        ⟨.newline, 9, 10, 9, 10⟩, ⟨.name [120], 11, 12, 11, 12⟩, ⟨.op .Equal, 15, 16, 15, 16⟩, ⟨.int 2, 17, 18, 17, 18⟩,
+        ⟨.newline, 18, 19, 18, 19⟩], .eof, 19⟩ := by decide +kernel
+  exact ⟨_, h, rfl, rfl, default_gaps_line_breaks asciiParams_sane rfl h rfl⟩
+
+/-- … and the predicate is not trivially true: a stream `x y` over the text `x⏎y` (no NEWLINE token over the line
+    break, depth 0, a token in front of it on the line) violates it -/
+example : ¬ DefaultGapsLineBreaks [120, 10, 121] [⟨.name [120], 0, 1, 0, 1⟩, ⟨.name [121], 2, 3, 2, 3⟩] := by
+  intro h
+  have := h.2.1 1 (by decide) (by decide) ⟨Or.inl rfl, by simp [JoinedAt]⟩
+  simp [depthStep, lineStartStep] at this
 
 end PV.C05
